@@ -184,8 +184,7 @@ mod proofs {
             }
         };
     }
-    horiz_wide!(horiz_wide_257, 257, 1032);
-    horiz_wide!(horiz_wide_263, 263, 1056);
+    // horiz_wide!(horiz_wide_257, 257, 1032);  // tried: CBMC did not finish in 20 minutes (1028 symbolic bytes, 32 chunk iterations); not part of any tier
 
     macro_rules! lane {
         ($name:ident, $l:expr) => {
